@@ -97,6 +97,11 @@ def stages(tier, rng, only=None):
     out.append(Stage("transposed_pairs", "Trace_Part", partrun.run_partitions,
                      lambda: [{"D": B, "prevD": A, "naming": "ints", "sch": list(SCHEMES[k % len(SCHEMES)])}
                               for k, (A, B) in enumerate(ac.transposed_pairs())], _nt_part, partrun.init, aux=aux))
+    nsv = 400 if tier == "quick" else 4000
+    out.append(Stage("split_votes_fractional", "Trace_Part", partrun.run_partitions,
+                     lambda: _cases([ac.split_votes(rng, ties=k % 3 == 2) for k in range(nsv)], ac.FRACTIONAL, False)
+                     + _cases([ac.split_votes(rng, m=4 + k % 2, ties=False) for k in range(nsv // 2)], ac.FRACTIONAL[:3], True),
+                     _nt_part, partrun.init, aux=aux))
     def lex_parts():
         dss = grids.datasets(3, 2)[::3] + [cascade(rng) for _ in range(100 if tier == "quick" else 1000)] \
             + [ac.cyclic_dataset(rng, 3, 5, incomplete=k % 2 == 1) for k in range(60 if tier == "quick" else 600)] \
